@@ -68,7 +68,23 @@ LEVEL_TEXT = ("Lean theorems for all stored-record maps, outcome scripts, lifecy
               "(`Kopf.C05.gate`). 'Last-handled state written exactly when closed': the "
               "model has the closing decision (`closed`), compared with the code on every pass; the write itself is an oracle "
               "clause. Ties: T (HandlerState booleans, outcome flags, lifecycles), S per pass (invocations, every top-level "
-              "record, purged children both ways, closing decision, delays), S per sub-pass, S per whole pass with its sub-passes.")
+              "record, purged children both ways, closing decision, delays), S per sub-pass, S per whole pass with its sub-passes. "
+              "WHITE-BOX REVIEW (review/wb/C02; model `Kopf.Model.C02_Nested`, theorems `Kopf.Props.C02_Nested`): (1) sub-handlers BELOW the "
+              "first level — `subPassN` (the parent's outcome references the keys of its own sub-pass and whatever the sub-handlers it "
+              "invoked report: the accumulator stack of `invoke_handler`), `execDeep` (any depth): subPassN_same_pass (every `subPass` theorem "
+              "carries over), subN_records_covered, subN_reports_covered, below_covered (ALL LEVELS DEEP, induction over the levels, no "
+              "bound), reported_purged_on_close + nested_records_purged_on_close ('progress records removed' for sub-handlers of any "
+              "depth), nested_accumulator_regression; (2) a parent whose OWN function fails AFTER its children ran in the same invocation "
+              "— `parentOutcome`: parentOutcome_subrefs / _open / _own, failing_parent_children_purged_on_close (whatever the ending: every "
+              "`return Outcome(…)` of `execute_handler_once` is generated); (3) the RESUMED FILTER between the registry's selection and the "
+              "handlers the pass is given (/repo 6c4463d; the mechanism is C14's) — `selectResumed`, `resumedAfter`: left_out_is_resumed, "
+              "resumed_run_all_final, left_out_had_finished ('every SELECTED handler has finished' is not weakened by the filter: whoever "
+              "is left out reached a final outcome in an earlier pass of this process), closing_empties_resumed. Ties added: the sub-pass "
+              "tie runs at EVERY depth with `subPassN`; the selection after the filter and the in-memory set after the pass are compared "
+              "per pass. Oracle clauses added: a handler is invoked at most once per pass; a handler the registry selects is left out only "
+              "as a resuming one that reached a final outcome in this process (judged from the observed outcomes); a sub-handler's record "
+              "is referenced by EVERY record it is nested in; at most one success per cycle also at the function level; every clause "
+              "reads the records wherever the configured storage keeps them (annotations under any prefix, status, both).")
 THEOREMS = [("Kopf.Props.C02", "Kopf.C02." + n) for n in [
     "no_rerun", "retry_kwarg", "invoked_selected_awake", "closed_iff_all_finished", "closed_ignores_unselected_records",
     "closed_despite_unselected_unfinished", "counts_running_variant_never_closes", "counts_running_variant_never_closes_witness",
@@ -112,28 +128,51 @@ RULE = ("seeded scenarios: 1-4 change handlers (create/update/delete/resume, opt
         "framework's finalizer, kept alive by somebody else's, carrying the records of create / update / resume handlers (some with "
         "sub-handlers) that were retrying when the deletion came — no deletion handler, an optional one, one whose label filter fails, or "
         "a mandatory one that is run and released first — then foreign edits, the other party letting go, stop / kill + restart "
-        "(histogram free_pass); one case = one handling pass; distinct & non-trivial = "
+        "(histogram free_pass); a NESTED family (gen_nested, harness/props/sim_c02.py): sub-handlers two and three levels deep, each "
+        "level registered any of the four ways; parents (top-level or nested) whose own function ends AFTER their children ran — one "
+        "scenario per `return Outcome(…)` of execute_handler_once in every run (temporary / permanent / arbitrary error x errors= mode x "
+        "retries / timeout look-ahead; histogram parent_ending_after_its_children) — or raises right after registering them; parents "
+        "whose SET of sub-handlers changes between invocations (histograms sub_nesting, sub_parent_fails_after); a LEGACY family "
+        "(gen_legacy): objects that carry records WITHOUT a purpose, with or without retries/stopped/message, some in "
+        "status.kopf.progress, while an update / the creation is outstanding; a STACKED-RESUME family (gen_stacked_resume): ONE "
+        "function object under `@on.resume` + `@on.update|create|delete` in either order of registration (kopf keeps the first "
+        "registered where both match); half of gen_stacked with ONE function object (`same_fn`); a sample of every family re-run under "
+        "another `settings.persistence.progress_storage` (annotations under another prefix, status.<name>.progress, both; histogram "
+        "progress_storage); one case = one handling pass; distinct & non-trivial = "
         "distinct abstracted (reason, stored-record shape, outcomes, closing) tuples with at least one handler selected")
 TRUSTED = ["harness/sim (virtual-time loop, fake API server, scripted handlers, attribute-level observation of kopf)",
            "abstraction of a pass: records decoded with kopf's own progress storage (C16's subject)",
-           "the closing decision of a pass is observed through `memory.fully_handled_once` (reset around the call, restored after)"]
+           "the closing decision of a pass is observed through `memory.fully_handled_once` (reset around the call, restored after)",
+           "harness/props/sim_c02.py (scripted parents with nested sub-handlers / own endings / changing sets; one function object for "
+           "stacked registrations; progress storage from the scenario; observation of the registry's selection, the executed handlers, "
+           "memory.resumed_handlers and the sub-passes below the first level)"]
 ASSUMPTIONS = ["randomized/shuffled lifecycles are not modelled (they draw from `random`); generators use the three deterministic ones",
                "one id registered for several causes (one function, stacked decorators) = several handlers with one record: which selected "
                "handlers are declared for the cause (`bound`: on.create/update/delete, as opposed to resuming/field) is an input of the model, read "
                "off the decorators' gates as the implementation reports them; generated with the same filters/limits for all registrations of "
-               "the id; an id registered with AND without a reason (on.resume + on.create on one function) is not generated. The oracle reads a "
+               "the id; an id registered with AND without a reason (on.resume + on.update/create/delete on ONE function object) is generated by "
+               "gen_stacked_resume: `bound` is then read off the gates of the SELECTED handlers (kopf keeps the first registered of the two "
+               "where both match). The oracle reads a "
                "record of another cause's purpose under the id of a handler declared for the cause as NOT that handler's (the property's "
                "'a handler whose success is recorded': the registration for this cause has recorded nothing)",
                "the multi-pass theorems chain every pass from what the previous one wrote (the honest reading of 'absent crashes, lost "
                "responses, late echoes') and assume no pass of another reason (a superseding cause, incl. a no-op that purges) in between",
-               "`cycle2` composes one level of sub-handlers on one clock; nested sub-handlers and passes in which time advances between "
-               "the handlers (sleeping handlers) are compared per sub-pass only (histogram whole_pass_skipped)",
+               "`cycle2` composes one level of sub-handlers on one clock; nested sub-handlers (generated since the white-box review), "
+               "parents that fail after their sub-pass, and passes in which time advances between the handlers (sleeping handlers) are "
+               "compared per sub-pass — at every depth, with `subPassN` — but not as one composed pass (histogram whole_pass_skipped); "
+               "`subPassN` takes what a nested sub-handler reports from that sub-handler's OUTCOME (for the code, the accumulator it was "
+               "given): the two differ only if an `except` branch drops the references — then the tie of the enclosing pass breaks",
+               "the error policy that turns the parent's own exception into final/error/delay is C11's: for a parent that raised after "
+               "its sub-pass the tie compares the sub-pass and the references of the outcome, the oracle the records",
                "sync handlers run inline (no real threads)",
                "which sub-handlers a sub-registry yields for the cause is an input of the model (`subCfgOf`: the registered children are "
                "the selected ones — sub-handlers without criteria of their own); the gate in the code (`ChangingRegistry.iter_handlers`: "
                "reason/initial/deleted/field_needs_change) is modelled in C15 (`Kopf.C15.gate`) and C05 (`Kopf.C05.gate`); here the input is "
                "compared with the code per parent invocation and required by the oracle, for every cause incl. deletion",
-               "sub-handlers with criteria of their own (labels/when/field on @kopf.subhandler) and nested sub-handlers are not generated",
+               "sub-handlers with criteria or limits of their own (labels/when/field/retries/timeout on @kopf.subhandler), and "
+               "`kopf.execute(handlers=…)` / `(registry=…)`, are not generated",
+               "progress storages: the oracle decodes annotations `<prefix>/<id with / as .>` (short ids) and `status.<name>.progress`; "
+               "ids long enough to be hashed into the annotation name are C16's subject and not generated here",
                "WHICH handlers a labels= / field= filter selects for a cause is C15's subject: oracle and model take the selection the "
                "implementation computed for the pass (`get_handlers(cause)`) as given; what is judged here is what the pass does with "
                "it — in particular that records of handlers OUTSIDE the selection (finished or not, same purpose or not) neither keep "
@@ -619,6 +658,75 @@ def gen_stacked(rng: Any, i: int) -> dict:
     sc["end"] = t + 6 * long_d + 30.0
     if rng.random() < 0.15:
         sc["status_subresource"] = True
+    if rng.random() < 0.5:
+        # literally ONE function object under the stacked decorators (kopf de-duplicates by function & id: the OWNED handlers
+        # keep the first registration only, the selected one is the cause's own); else one function per registration
+        sc["same_fn"] = True
+    return sc
+
+
+def gen_stacked_resume(rng: Any, i: int) -> dict:
+    """ONE function under ONE id registered WITH and WITHOUT a reason: `@kopf.on.resume` stacked with `@kopf.on.update` /
+    `@kopf.on.create` / `@kopf.on.delete` (the example in the docstring of `registries._deduplicated`), in either order
+    of registration. On a cause that both registrations match (an update / a creation / a deletion at first sight) kopf
+    keeps the FIRST registered: the resuming one is a mix-in (its record is carried over and re-purposed; once it has
+    finished in this process it is left out), the cause's own one is declared for the cause (a record of another cause
+    under its id is its namesake's: it starts from scratch). A resuming sibling keeps the first cycle open (or the
+    stacked handler itself is retrying) when the change / the deletion arrives; stop / kill + restart in between.
+    Always with ONE function object (`same_fn`): with two functions both would be selected under one id."""
+    other = rng.choice(["update", "update", "create", "delete"])
+    order = ["resume", other] if rng.random() < 0.5 else [other, "resume"]
+    how = rng.choice(["ok", "ok", "perm", "retrying", "sleeping"])
+    long_d = rng.choice([4.0, 8.0, 16.0])
+    script: list = {"ok": [], "perm": ["perm"], "retrying": [["temp", 0.5], ["temp", 0.5]], "sleeping": [["temp", long_d]]}[how]
+    opts: dict[str, Any] = {}
+    if rng.random() < 0.25:
+        opts["retries"] = rng.choice([2, 3])
+    if rng.random() < 0.3:
+        opts["backoff"] = rng.choice([0.5, 1.0])
+    handlers: list[dict] = []
+    for k in order:
+        o = dict(opts)
+        if k == "resume" and (other == "delete" or rng.random() < 0.3):
+            o["deleted"] = True
+        handlers.append({"kind": k, "id": "h", "opts": o, "script": list(script), "default": "ok"})
+    if how in ("ok", "perm") or rng.random() < 0.5:
+        handlers.append({"kind": "resume", "id": "g", "opts": {"deleted": rng.random() < 0.5}, "default": "ok",
+                         "script": [["temp", long_d] for _ in range(rng.choice([1, 1, 2]))]})
+    if rng.random() < 0.4:
+        handlers.append({"kind": other, "id": "o", "opts": {}, "default": "ok", "script": [rng.choice(["ok", ["temp", 1.0]])]})
+    if other != "delete" and rng.random() < 0.3:
+        handlers.append({"kind": "delete", "id": "d", "opts": {"optional": rng.random() < 0.3}, "default": "ok", "script": []})
+    # (the relative order of the two registrations of `h` is the point: shuffle the others around them)
+    rest = [h for h in handlers if h["id"] != "h"]
+    rng.shuffle(rest)
+    cut = rng.randrange(len(rest) + 1)
+    handlers = rest[:cut] + [h for h in handlers if h["id"] == "h"] + rest[cut:]
+    body0: dict[str, Any] = {"spec": {"x": 0}, "metadata": {"labels": {"l": "1"}}}
+    if other != "create" or rng.random() < 0.5:
+        body0["metadata"]["annotations"] = {OWN_PREFIX + "last-handled-configuration": json.dumps(ESSENCE0, separators=(",", ":")) + "\n"}
+    if other == "delete" and rng.random() < 0.3:
+        body0["metadata"]["finalizers"] = ["example.com/hold"]
+    t = rng.choice([0.5, 1.0, 2.0, 3.0])
+    timeline: list[list] = []
+    for _ in range(rng.choice([1, 1, 2, 3])):
+        what = rng.choice(["edit", "edit", "back", "delete"]) if other != "delete" else rng.choice(["delete", "delete", "edit"])
+        if what == "edit":
+            timeline.append([t, "edit", "a", {"spec": {"x": 1 + len(timeline)}}])
+        elif what == "back":
+            timeline.append([t, "edit", "a", {"spec": {"x": 0}}])
+        else:
+            timeline.append([t, "delete", "a"])
+            break
+        t += rng.choice([0.5, 1.0, 2.0, 5.0])
+    if rng.random() < 0.35:
+        ts = rng.randrange(16, int((t + 4.0) * 64)) / 64.0
+        timeline.append([ts, rng.choice(["stop", "kill"])])
+        timeline.append([ts + rng.choice([0.5, 2.0]), "start"])
+    sc: dict[str, Any] = {"seed": i, "lifecycle": rng.choice(["asap", "one_by_one", "all_at_once"]), "handlers": handlers,
+                          "objects": [{"name": "a", "body": body0}], "timeline": timeline, "same_fn": True,
+                          "settings": {"execution.default_backoff": rng.choice([1.0, 2.0])}, "end": t + 6 * long_d + 20.0,
+                          "family": "stacked-resume"}
     return sc
 
 
@@ -822,6 +930,18 @@ def _sub_sets(rng: Any, ids: list[str]) -> list:
     return out
 
 
+# (the parent's own ending after its children, its options): one per `return Outcome(...)` of `execute_handler_once` that can
+# follow a sub-pass — TemporaryError: plain / would exceed the retries / would time out; PermanentError; an arbitrary error
+# under errors=IGNORED / TEMPORARY (plain, retries, timeout) / PERMANENT
+AFTER_ENDINGS: list[tuple[Any, dict]] = [
+    (["temp", 1.0], {}), (["temp", 1.0], {"retries": 1}), (["temp", 2.0], {"timeout": 1.0}),
+    ("perm", {}),
+    ("arb", {"errors": "ignored"}), ("arb", {"errors": "temporary", "backoff": 1.0}), ("arb", {"errors": "temporary", "retries": 1}),
+    ("arb", {"errors": "temporary", "timeout": 1.0, "backoff": 2.0}), ("arb", {"errors": "permanent"}),
+    ("arb", {}), ("perm", {"errors": "ignored"}),
+]
+
+
 def gen_nested(rng: Any, i: int) -> dict:
     """What the scripted parents of `gen_subs` could not do (white-box review m1, m4, m6, m7): sub-handlers BELOW the first level
     (a sub-handler that registers sub-handlers of its own, two or three levels, each level by any of the four ways);
@@ -834,10 +954,18 @@ def gen_nested(rng: Any, i: int) -> dict:
     if "delete" not in kinds and rng.random() < 0.35:
         kinds.append("delete")
     flavour = rng.choice(["nested", "nested", "after", "after", "sets", "mixed"])
+    forced = (i % 100000) < 2 * len(AFTER_ENDINGS)        # the first scenarios of every run: each ending twice
+    if forced:
+        flavour = "after"
     p_nest = {"nested": 0.7, "after": 0.15, "sets": 0.1, "mixed": 0.5}[flavour]
     p_after = {"nested": 0.1, "after": 0.0, "sets": 0.0, "mixed": 0.3}[flavour]
     p_sets = {"nested": 0.1, "after": 0.0, "sets": 0.3, "mixed": 0.3}[flavour]
     handlers = []
+    # the SHARP variant of "after" (stratified over the scenario index, so that every ending is produced in every run): the
+    # children all finish in the parent's FIRST invocation and the parent's own function ends that very invocation in one
+    # of the ways `execute_handler_once` tells apart — the references to the children's records are carried by that one
+    # outcome only (no earlier children-retry outcome has stored them)
+    sharp = AFTER_ENDINGS[i % len(AFTER_ENDINGS)] if flavour == "after" and (rng.random() < 0.7 or forced) else None
     for k, kind in enumerate(kinds):
         opts: dict[str, Any] = {}
         if kind == "field":
@@ -853,6 +981,16 @@ def gen_nested(rng: Any, i: int) -> dict:
         h: dict[str, Any] = {"kind": kind, "id": f"{kind[0]}{k}", "opts": opts, "default": "ok",
                              "script": [] if rng.random() < 0.75 else [rng.choice([["temp", 1.0], ["temp", 0.5], "arb"])],
                              "sub": _sub_tree(rng, 2, [1, 2, 2, 3], p_nest, p_after, p_sets), "sub_mode": rng.choice(SUB_MODES)}
+        if sharp is not None and k == 0:
+            action, more = sharp
+            h["script"] = []
+            h["sub"] = [{"id": f"s{j}", "default": "ok", "script": []} for j in range(rng.choice([1, 2]))]
+            h["sub_mode"] = rng.choice(["execute", "decorator_execute"])
+            h["after"] = [action]
+            h["opts"] = {kk: v for kk, v in opts.items() if kk in ("field", "deleted")}
+            h["opts"].update(more)
+            handlers.append(h)
+            continue
         if flavour in ("after", "mixed") and (flavour == "after" or rng.random() < 0.5):
             h["after"] = _after_list(rng)
             if rng.random() < 0.7:
@@ -889,6 +1027,10 @@ def gen_nested(rng: Any, i: int) -> dict:
         timeline.append([ts + rng.choice([0.5, 2.0, 5.0]), "start"])
     sc = {"seed": i, "lifecycle": rng.choice(["asap", "one_by_one", "all_at_once", "all_at_once"]), "handlers": handlers,
           "timeline": timeline, "settings": {"execution.default_backoff": rng.choice([1.0, 2.0])}, "end": end, "family": "nested"}
+    if sharp is not None:
+        sc["lifecycle"] = "all_at_once"
+        ending = f"{sharp[0][0] if isinstance(sharp[0], list) else sharp[0]}/" + ",".join(f"{k}={v}" for k, v in sorted(sharp[1].items()))
+        sc["after_ending"] = ending
     if objects:
         sc["objects"] = objects
     if rng.random() < 0.2:
@@ -994,6 +1136,10 @@ def _bound(p: dict) -> list[str]:
     on.update / on.delete — as opposed to the mix-in handlers, resuming and field, which have no reason of their own),
     read off the decorators' gates as the implementation reports them. (A handler with a reason is selected only for
     that reason, so `reason == the cause's` is the same as `is not None` for a selected one.)"""
+    if p.get("selected_gates") is not None:
+        # the gates of the handlers the registry SELECTED (one function stacked under one id: the owned handlers, de-duplicated
+        # by function & id, keep the first registration only — the selected one is the registration for this cause)
+        return sorted({g["id"] for g in p["selected_gates"] if g["id"] in p["selected"] and g.get("reason") == p["reason"]})
     return sorted({d["id"] for d in p.get("decls") or [] if d["id"] in p["selected"] and d["gate"].get("reason") == p["reason"]})
 
 
@@ -1055,8 +1201,14 @@ def oracle(ctx: Ctx, sc: dict, tr: dict) -> None:
         key_io = (cyc["inc"], cyc["uid"])
         if pc.get("reason") in KINDS and pc.get("raw_selected") is not None and not cyc.get("error") and "closed" in pc:
             actual = pc["actual_selected"] if pc.get("actual_selected") is not None else []
+            resuming = {g["id"] for g in pc.get("selected_gates") or [] if g.get("initial")}
             for h in pc["raw_selected"]:
-                if h not in actual and h not in finals_seen.get(key_io, set()):
+                if h not in actual and h not in resuming:
+                    ctx.oracle_fail(f"handler {h} is selected for the {pc['reason']} cause but left out of the pass, and it is not a resuming "
+                                    f"handler (only those are left out, once they have finished in this process)",
+                                    {"scenario": sc, "cycle": cyc["i"], "selected_by_registry": pc["raw_selected"], "executed": actual},
+                                    {"site": "process_changing_cause", "shape": "selected non-resuming handler left out"})
+                elif h not in actual and h not in finals_seen.get(key_io, set()):
                     ctx.oracle_fail(f"handler {h} is selected for the {pc['reason']} cause but left out of the pass although it has "
                                     f"not reached a final outcome in this process (the pass {'closes' if pc.get('closed') else 'does not close'} the cycle)",
                                     {"scenario": sc, "cycle": cyc["i"], "selected_by_registry": pc["raw_selected"], "executed": actual,
@@ -1509,6 +1661,7 @@ def run(ctx: Ctx) -> None:
     scenarios += [gen_free(ctx.rng, 95_000_000 + ctx.seed * 100000 + i) for i in range(max(40, n // 5))]
     scenarios += [gen_nested(ctx.rng, 96_000_000 + ctx.seed * 100000 + i) for i in range(max(90, n // 3))]
     scenarios += [gen_legacy(ctx.rng, 97_000_000 + ctx.seed * 100000 + i) for i in range(max(30, n // 8))]
+    scenarios += [gen_stacked_resume(ctx.rng, 98_000_000 + ctx.seed * 100000 + i) for i in range(max(40, n // 6))]
     # other progress storages: a sample of every family re-run under another `settings.persistence.progress_storage`
     pick = [sc for sc in scenarios if not sc.get("objects") or sc.get("family") != "legacy"]
     scenarios += [with_storage(ctx.rng, sc) for sc in ctx.rng.sample(pick, min(len(pick), max(60, n // 4)))]
@@ -1517,6 +1670,8 @@ def run(ctx: Ctx) -> None:
     scenarios = [_with_runner(sc) for sc in scenarios]
     for sc in scenarios:
         ctx.count("family", sc.get("family") or "base")
+        if sc.get("after_ending"):
+            ctx.count("parent_ending_after_its_children", sc["after_ending"])
         ctx.count("progress_storage", (sc.get("progress_storage") or {}).get("kind", "default (smart)"))
     results = pool.run_many(scenarios, wall=40.0)
     reqs, impls, where = [], [], []
